@@ -245,13 +245,22 @@ func forNud(p *parser, t *token) *token {
 		return t
 	}
 
-	t.Append(first)
+	// init and post are statements: a bare call there is asked for no results
+	t.Append(asStatement(first))
 	p.Advance(";")
 	t.Append(p.Expression(0, "{"))
 	p.Advance(";")
-	t.Append(p.Expression(0, "{"))
+	t.Append(asStatement(p.Expression(0, "{")))
 	t.Append(p.Block("block", "{", "}"))
 	return t
+}
+
+// asStatement marks an expression node as used in statement position (see parser.Statement).
+func asStatement(tok *token) *token {
+	if tok != nil && tok.Symbol == "call" {
+		tok.Tokens[2].Text = "0"
+	}
+	return tok
 }
 
 // func variadicNud(p *parser, t *token) *token {
